@@ -143,7 +143,25 @@ func scnLifecycleLate(name string) *world.Scenario {
 	return s
 }
 
+// the RM itself places an ask the core already knows, and changes its size in the same update (shrink a1, grow a2);
+// sixth seeding round (C03-6, C12-6)
+func scnAcctBind(name string) *world.Scenario {
+	s := scnCapBasic(name, "fair")
+	s.Nodes = []world.NodeSpec{{ID: "n1", Cap: world.MV(4, 4)}, {ID: "n2", Cap: world.MV(3, 1)}}
+	s.Asks = []world.AskSpec{
+		{Key: "a1", App: "app1", Res: world.M(2), Create: 1001, Resize: world.M(1), BindNode: "n1", BindResize: true},
+		{Key: "a2", App: "app1", Res: world.MV(1, 1), Create: 1002, Resize: world.MV(2, 1), BindNode: "n1", BindResize: true},
+		{Key: "a3", App: "app1", Res: world.M(1), Create: 1003},
+	}
+	s.Foreign = nil
+	s.Deny = [][2]string{{"a1", "n1"}, {"a1", "n2"}, {"a2", "n2"}} // a1 is only ever placed by the RM
+	s.Alphabet = []string{"SCHEDULE", "ASK", "ASK_BIND", "ASK_RESIZE", "RELEASE", "NODE_ADD", "NODE_REMOVE", "APP_REMOVE"}
+	s.Prefix = []world.Op{op("NODE_ADD", "n1"), op("APP_ADD", "app1")}
+	return s
+}
+
 func init() {
+	mc.Register(&mc.ScenarioDef{Scn: scnAcctBind("acct-bind"), Monitors: []mc.Monitor{monC03()}})
 	mc.Register(&mc.ScenarioDef{Scn: scnGangDrain("gang-cap-drain"), Monitors: []mc.Monitor{monC01()}})
 	mc.Register(&mc.ScenarioDef{Scn: scnGangSameNode("gang-si-same"), Monitors: []mc.Monitor{monC04()}})
 	mc.Register(&mc.ScenarioDef{Scn: scnGangReversed("gang-si-reversed"), Monitors: []mc.Monitor{monC04()}})
